@@ -75,3 +75,41 @@ def engine_views_consistent(eng):
     if set(seen) != finite:
         return False, "tree indices %s != finite rows %s" % (sorted(seen), sorted(finite))
     return True, ""
+
+
+# ---- topologies through the real reader -------------------------------------------------------------
+def moltype_text(name, residues, nrexcl=1, bonds=None, mass=True):
+    """residues: list of (resname, [atom names]); atoms are bonded linearly (also across residues) unless `bonds` given"""
+    lines = ["[ moleculetype ]", "%s %d" % (name, nrexcl), "[ atoms ]"]
+    idx = 0
+    for r, (resname, atoms) in enumerate(residues):
+        for a in atoms:
+            idx += 1
+            lines.append("%d T%s %d %s %s %d 0.0%s" % (idx, resname, r + 1, resname, a, idx, " 36.0" if mass else ""))
+    if bonds is None:
+        bonds = [(i, i + 1) for i in range(1, idx)]
+    if bonds:
+        lines.append("[ bonds ]")
+        for a, b in bonds:
+            lines.append("%d %d 1 0.35 1000" % (a, b))
+    return "\n".join(lines)
+
+
+def top_text(moltypes, molecules, atomtypes=("A", "B", "C", "S")):
+    """moltypes: dict name -> residues (see moltype_text) or ready text; molecules: list of (name, count)"""
+    out = ["[ defaults ]", "1 1 no 1.0 1.0", "[ atomtypes ]"]
+    for t in atomtypes:
+        out.append("T%s 36.0 0.0 A 0.47 2.0" % t)
+    for name, spec in moltypes.items():
+        out.append(spec if isinstance(spec, str) else moltype_text(name, spec))
+    out += ["[ system ]", "pverif", "[ molecules ]"]
+    out += ["%s %d" % (n, c) for n, c in molecules]
+    return "\n".join(out) + "\n"
+
+
+def topology_from_text(text, name="pverif"):
+    from polyply.src.top_parser import read_topology
+    ff = vermouth.forcefield.ForceField(name=name)
+    top = Topology(ff, name=name)
+    read_topology(text.split("\n"), top)
+    return top
